@@ -23,8 +23,10 @@ func gen(tier string, seed int64) []mon.Case {
 			d = GenWedge(r)
 		case x < 26:
 			d = GenMulti(r)
+		case x < 46:
+			d = GenPlat(r)
 		default:
-			x = (x - 26) * 20 / 174
+			x = (x - 46) * 20 / 154
 			d = genSingle(r, x)
 		}
 		cs = append(cs, mon.MkCase(fmt.Sprintf("c12/%05d", i), d))
@@ -53,6 +55,8 @@ func run(c mon.Case) mon.Result {
 		return RunEscalation(d)
 	case d.Kind == "multi":
 		return RunMulti(d)
+	case d.Kind == "platform":
+		return RunPlat(d)
 	}
 	return RunDialogue(d)
 }
@@ -70,6 +74,9 @@ func init() {
 			"(the escalation secret, or an event's input) is stuck in the transport past the operation timeout (nothing may be typed by an operation that has returned; secret only in password state); both always non-trivial. " +
 			"Interactive operations carry PRNG-chosen option lists (interim prompt patterns with matching lines in the device's output ahead of the expected response in some cases and never in others, no-strip, per-operation timeout, eager, privilege level, failed-when, stop-on-failed): none changes the reference of an interactive send. " +
 			"Echo-stall cases: the echo of a last, non-eager plain command stops after a proper prefix and the command runs under a 300-600 ms per-operation timeout; judged is only that nothing is written behind the command while its echo is incomplete. " +
+			"Escalations also run with bare-text escalate prompts whose edge white space is significant (\": \", \"Password: \", \" password:\"; hosts with colons), and through the embedded platform definitions that have an authenticated level " +
+			"(cumulus_linux, cisco_iosxe, arista_eos, cisco_nxos, juniper_junos root shell, aruba_wlc, ruijie_rgos; Open runs the definition's on-open steps, then the authenticated level is acquired) against a device driven by the definition's own commands: " +
+			"asks/grants/refuses/rejects, secondary secret set or unset, the device's answer delivered whole or cut into two reads at any position, preferably behind a colon. " +
 			"Distinct = distinct descriptor hash.",
 		Assumptions: []string{
 			"device is causal (devsim.CLI): echoes visible input, reads hidden input without echo, reacts to a line only when its return arrived",
@@ -79,6 +86,7 @@ func init() {
 			"visible echo-matched inputs end in a byte that occurs nowhere else; bytes withheld by the device lie behind the match point; search depth exceeds every line",
 			"in reaction to one event the device shows either the expected response or a completion pattern, never both",
 			"stuck-write cases: the transport holds exactly one write; it is let go after the caller started its next operation if the call returned meanwhile, else a grace period after the operation timeout (lateness of the return is not judged here); what precedes the held write runs under a 1.5-2 s timeout, failures there are inconclusive",
+			"platform cases: prompts from the canonical table (several host spellings incl. colons); the device's error lines contain nothing that the definition's escalate-prompt matches (cumulus' bare \": \" would take any 'word: text' message for the password prompt)",
 			"escalation device: password read is hidden (no echo), rejects/refusals return to the exec prompt with an error line",
 		},
 		Gen:         gen,
